@@ -87,7 +87,19 @@ func lifecycleOracle(c *Ctx, w *World) {
 			c.Check(started[curReq] >= 1, "done_after_start", "C15/runtime-done-before-start", "invoke-runtime-done without a preceding invoke-start for the dispatched invocation", curReq)
 		}
 	}
-	c.Check(cur == nil, "one_report_per_init", "C15/init-without-report", "an init episode never emitted its init-report", nil)
+	if cur != nil {
+		// an episode still open at the end of the log is only wrong if the scenario went on past it:
+		// some invocation was answered after the episode began (a scenario may legitimately end mid-init)
+		later := false
+		for _, e := range evs {
+			if strings.HasPrefix(e.Src, "caller") && e.Kind == "ret" && e.Seq > cur.start {
+				later = true
+			}
+		}
+		c.Check(!later, "one_report_per_init", "C15/init-without-report", "an init episode never emitted its init-report although an invocation was answered after it began", nil)
+	} else {
+		c.Clause("one_report_per_init")
+	}
 	// every dispatched invocation (SetCurrentRequestID) has exactly one start and at most one runtime-done
 	seenReq := map[string]bool{}
 	for _, e := range stream {
